@@ -1,5 +1,6 @@
 import OrbitModel.Model.Store
 import OrbitModel.Proofs.History
+import OrbitModel.Proofs.GenEqDocRead
 /-!
 # C07 — document store = last-writer-wins replay, including batch puts
 
@@ -73,5 +74,14 @@ stayed; now it goes (corpus/C07/f45) -/
 theorem trimmed_document_stayed_visible_before_the_fix :
     KV.get (updateIndex0 .doc [("Doc-b", "x")] (Log.empty 1)) "Doc-b" = some "x" ∧
     KV.get (updateIndex .doc [("Doc-b", "x")] (Log.empty 1)) "Doc-b" = none := by decide
+
+/-- **`Get` and `Query` answer from ONE state of the documents** — the one `get_returns_exactly_matching`
+is stated over: in the Go text of this run both take the map `UpdateIndex` swapped in last (it is never
+modified afterwards: F45) and read keys and values from it (after the `fix:` commit, finding F58: the key
+list and each value were read in separate lock sections — a batch put landing in between gave one
+document of the old batch and one of the new, a delete made `Get` fail; replayed on the real store with
+the caller's filter as the meeting point: `doctorn`) -/
+theorem reads_take_one_state_tied_to_go_text :
+    Gen.docQueryOrder = Order.docRead ∧ Gen.docGetOrder = Order.docRead := gen_docRead_order
 
 end Orbit.C07
